@@ -143,7 +143,7 @@ Section Proofs.
     R h v -> R (fst (hstep h o)) (fst (vstep v o)) /\ snd (hstep h o) = snd (vstep v o).
   Proof.
     intros (Est & Edec & Eup & Epr & Bup & Bpr & Ebuf).
-    destruct o as [sid tid key ds|b| |].
+    destruct o as [sid tid key ds|b| | |psid ptid pkey pds].
     - (* Arr *)
       cbn [StressRoute.hstep StressRoute.vstep]. rewrite <- Est, <- Edec, <- Ebuf.
       set (r := h_nxt h). set (p0 := mkPay sid tid key ds 0 false false false).
@@ -229,6 +229,8 @@ Section Proofs.
       cbn [StressRoute.hstep StressRoute.vstep fst snd]. split.
       + splitR; try assumption; try reflexivity. constructor.
       + rewrite <- Epr. apply flush_posts.
+    - (* Probe *)
+      cbn [StressRoute.hstep StressRoute.vstep fst snd]. split; [|reflexivity]. splitR; assumption.
   Qed.
 
   Lemma R_init : R (hinit) (vinit).
@@ -336,7 +338,7 @@ Section Proofs.
     events o1 = step_ev st seen buf o.
   Proof.
     intros HR. pose proof HR as [Est [Ebuf Hd]]. cbv zeta.
-    destruct o as [sid tid key ds|b| |].
+    destruct o as [sid tid key ds|b| | |psid ptid pkey pds].
     - cbn [StressRoute.vstep st_after seen_after bf_after step_up step_pr step_ev]. unfold StressRoute.fate_of, StressRoute.buf_after.
       rewrite Est, Ebuf. destruct st.
       + (* stressed *)
@@ -388,6 +390,8 @@ Section Proofs.
       + cbn [app]. rewrite app_nil_r. eapply Permutation_trans; [apply Permutation_app_tail; apply (all_posted_flush false true)|]. apply Permutation_refl.
       + rewrite !app_nil_r. apply (all_posted_flush false false).
       + apply events_posts.
+    - cbn [StressRoute.vstep st_after seen_after bf_after step_up step_pr step_ev fst snd all_posted flat_map app events filter].
+      repeat split; try assumption; try reflexivity; rewrite app_nil_r; apply Permutation_refl.
   Qed.
 
   Lemma vrun_spec : forall ops v st seen buf,
@@ -493,7 +497,7 @@ Section Proofs.
   Lemma vstep_intact v o : Forall intact (v_up v) ->
     Forall intact (v_up (fst (vstep v o))) /\ Forall post_ok (snd (vstep v o)).
   Proof.
-    intros F. destruct o as [sid tid key ds|b| |]; cbn [StressRoute.vstep].
+    intros F. destruct o as [sid tid key ds|b| | |psid ptid pkey pds]; cbn [StressRoute.vstep].
     - destruct (v_st v).
       + destruct (match alookup tid (v_dec v) with Some d => d | None => keep_rule tid end).
         * destruct (N.eqb (own tid) 0); cbn [fst snd v_up]; (split; [|constructor]);
@@ -516,6 +520,7 @@ Section Proofs.
     - cbn [fst snd v_up]. split; [exact F|].
       rewrite Forall_forall. intros o Ho. apply in_map_iff in Ho. destruct Ho as [g [<- Hg]].
       destruct g as [|[k p] g']; exact I.
+    - cbn [fst snd]. split; [exact F|constructor].
   Qed.
 
   Lemma vrun_intact : forall ops v, Forall intact (v_up v) -> Forall post_ok (snd (vrun v ops)).
@@ -539,9 +544,10 @@ Section Proofs.
   Proof.
     induction ops as [|o r IH]; intros st seen buf x Hin; [destruct Hin|].
     rewrite spec_up_cons, map_app in Hin. apply in_app_or in Hin.
-    destruct o as [sid tid key ds|b| |]; cbn [arr_sids step_up] in *.
+    destruct o as [sid tid key ds|b| | |psid ptid pkey pds]; cbn [arr_sids step_up] in *.
     - destruct Hin as [Hin|Hin]; [|right; eapply IH; exact Hin].
       destruct (fate_of st seen buf tid); cbn in Hin; try destruct Hin as [<-|[]]; try contradiction; left; reflexivity.
+    - destruct Hin as [[]|Hin]. eapply IH; exact Hin.
     - destruct Hin as [[]|Hin]. eapply IH; exact Hin.
     - destruct Hin as [[]|Hin]. eapply IH; exact Hin.
     - destruct Hin as [[]|Hin]. eapply IH; exact Hin.
@@ -551,7 +557,7 @@ Section Proofs.
   Proof.
     induction ops as [|o r IH]; intros st seen buf ND; [constructor|].
     rewrite spec_up_cons, map_app.
-    destruct o as [sid tid key ds|b| |]; cbn [arr_sids step_up] in *; try (cbn [map app]; apply IH; exact ND).
+    destruct o as [sid tid key ds|b| | |psid ptid pkey pds]; cbn [arr_sids step_up] in *; try (cbn [map app]; apply IH; exact ND).
     inversion ND as [|? ? Hnot ND']; subst.
     destruct (fate_of st seen buf tid); cbn [expect_up map app]; try (apply IH; exact ND').
     - constructor; [|apply IH; exact ND']. intros Hin. apply Hnot. eapply spec_up_sids_sub. exact Hin.
